@@ -116,8 +116,9 @@ func decode(dst ivg.Destination, p printer, m *ivg.Metadata, metadataOnly bool, 
 	}
 	src = src[n:]
 
+	prevMID := int64(-1)
 	for ; nMetadataChunks > 0; nMetadataChunks-- {
-		src, err = decodeMetadataChunk(p, m, src)
+		src, err = decodeMetadataChunk(p, m, src, &prevMID)
 		if err != nil {
 			return err
 		}
@@ -142,7 +143,7 @@ func decode(dst ivg.Destination, p printer, m *ivg.Metadata, metadataOnly bool, 
 	return nil
 }
 
-func decodeMetadataChunk(p printer, m *ivg.Metadata, src buffer) (src1 buffer, err error) {
+func decodeMetadataChunk(p printer, m *ivg.Metadata, src buffer, prevMID *int64) (src1 buffer, err error) {
 	length, n := src.decodeNatural()
 	if n == 0 {
 		return nil, errInvalidMetadataChunkLength
@@ -160,6 +161,11 @@ func decodeMetadataChunk(p printer, m *ivg.Metadata, src buffer) (src1 buffer, e
 	if mid >= uint32(len(midDescriptions)) {
 		return nil, errUnsupportedMetadataIdentifier
 	}
+	// Chunks must be presented in increasing MID order and cannot be repeated.
+	if int64(mid) <= *prevMID {
+		return nil, errInvalidMetadataIdentifier
+	}
+	*prevMID = int64(mid)
 	if p != nil {
 		p(src[:n], "Metadata Identifier: %d (%s)\n", mid, midDescriptions[mid])
 	}
